@@ -395,6 +395,63 @@ func genRaceTrace(seed uint64, run int, o genOpts) *Trace {
 			g.m.Put(k, nextID)
 			nextID++
 		}
+		// the shared tree has a history too: half of the time one node is driven to a
+		// wide fan-out and drained again (nodes that went through shrinks), and some
+		// keys are deleted, all before the readers start
+		if r.Chance(2, 3) && kt.Kind != "compound" {
+			wide := pick(r, []int{20, 50, 60, 60, 256})
+			keep := pick(r, []int{2, 12, 13, 36, 37, 37, 37, 38})
+			lowPfx := r.Chance(1, 2) // put the wide node on the left-most or the right-most spine
+			mk := func(x int) []byte {
+				if kt.Kind == "alpha" {
+					p := byte(0x01)
+					if !lowPfx {
+						p = 0xFE
+					}
+					return append(append([]byte{p}, g.fanPfx...), byte(x), 's')
+				}
+				b := g.bases[0] &^ 0xFF
+				if lowPfx {
+					b = 0
+				}
+				return u64bytes(normField(kt.T, false, b|uint64(x)))
+			}
+			var xs []int
+			for x := 0; x < wide; x++ {
+				k := mk(x)
+				if kt.Kind == "alpha" && g.m.nulRelated(k) {
+					continue
+				}
+				if _, ok := g.m.Get(k); ok {
+					continue
+				}
+				tr.Steps = append(tr.Steps, Step{T: 0, Op: "ins", K: k, V: nextID, G: 0})
+				g.m.Put(k, nextID)
+				nextID++
+				xs = append(xs, x)
+			}
+			// drain from the low end, from the high end, or randomly
+			mode := pick(r, []int{0, 0, 1, 1, 2})
+			for len(xs) > keep {
+				j := 0
+				switch mode {
+				case 1:
+					j = len(xs) - 1
+				case 2:
+					j = r.Intn(len(xs))
+				}
+				k := mk(xs[j])
+				xs = append(xs[:j], xs[j+1:]...)
+				tr.Steps = append(tr.Steps, Step{T: 0, Op: "del", K: k, G: 0})
+				g.m.Del(k)
+			}
+		}
+		for i := 0; i < n/8; i++ {
+			if pk, ok := g.presentKey(r); ok {
+				tr.Steps = append(tr.Steps, Step{T: 0, Op: "del", K: clone(pk), G: 0})
+				g.m.Del(pk)
+			}
+		}
 	}
 	// private trees: one or two per goroutine, mixed kinds, collation included
 	nPriv := gs
